@@ -27,16 +27,29 @@ Definition wf_suffix (x : suffix) : bool :=
   | SDt iri => forallb (fun c => negb (c =? cGT)) iri
   end.
 
-(* terms of an N-Triples / N-Quads statement (quoted triples are outside the theorems; the
-   correspondence check covers them) *)
+(* a component of a quoted triple: IRI, blank node, plain or typed literal.  Not covered (correspondence
+   check only): nested quoted triples, and language-tagged literals - encode_term_star drops the tag of a
+   component, so `<< s p "x"@en >>` and `<< s p "x" >>` are stored as the same term (noted in notes/C13.md) *)
+Definition comp_ok (t : term) : bool :=
+  match t with
+  | TIri s => wf_iri s
+  | TBnode l => wf_iri l
+  | TLit b SNone => forallb wf_lchar b
+  | TLit b (SDt iri) => forallb wf_lchar b && wf_iri iri
+  | _ => false
+  end.
+
+(* terms of an N-Triples / N-Quads statement, including one-level quoted triples `<< s p o >>` *)
 Definition wf_term_nt (t : term) : bool :=
   match t with
   | TIri s => wf_iri s
   | TBnode l => wf_iri l
   | TLit b x => forallb wf_lchar b && wf_suffix x
+  | TQuoted s p o => comp_ok s && comp_ok p && comp_ok o
   | _ => false
   end.
 
+Definition is_quoted_term (t : term) : bool := match t with TQuoted _ _ _ => true | _ => false end.
 Definition sp_tab (c : N) : bool := (c =? cSP) || (c =? cTAB).
 Definition sep_ok (w : str) : bool := negb (is_empty w) && forallb sp_tab w.    (* between two terms *)
 Definition ws_ok (w : str) : bool := forallb is_ws w.                            (* at the ends, before the dot *)
@@ -51,6 +64,7 @@ Definition wf_item_nq (i : item) : bool :=
   | IComment ws _ => ws_ok ws
   | IStmt pd s p o None => wf_pad_nt pd false && wf_term_nt s && wf_term_nt p && wf_term_nt o
   | IStmt pd s p o (Some g) => wf_pad_nt pd true && wf_term_nt s && wf_term_nt p && wf_term_nt o && wf_term_nt g
+                               && negb (is_quoted_term g)   (* the graph name is not a quoted triple *)
   | _ => false
   end.
 Definition no_graph (i : item) : bool := match i with IStmt _ _ _ _ (Some _) => false | _ => true end.
